@@ -59,7 +59,7 @@ pub fn pick_labels(rng: &mut Rng, pool: &[usize], k: usize) -> Vec<usize> {
     p
 }
 
-pub const LABEL_POOL: [usize; 14] = [0, 1, 2, 3, 4, 5, 7, 9, 20, 21, 1000, 1 << 40, usize::MAX - 1, usize::MAX];
+pub const LABEL_POOL: [usize; 18] = [0, 1, 2, 3, 4, 5, 7, 9, 20, 21, 1000, 256 + 3, 65_536 + 5, (1 << 32) + 1, (1 << 32) + 9, 1 << 40, usize::MAX - 1, usize::MAX];
 
 /// Silence fd 2 while a closure runs (the library prints diagnostics with eprintln! in
 /// retain_choice_bottom_up; millions of lines would drown the run). Restores fd 2 afterwards.
